@@ -140,6 +140,17 @@ type TableSpec struct {
 	// NoValBlk disables value blocks (used by the copy tables: CopySpan copies a table with value
 	// blocks as a whole file, and the older c@5 version would otherwise go to a value block).
 	NoValBlk bool `json:"novalblk,omitempty"`
+	// Deep adds three more versions of user key c@5 (sequence numbers 8, 7, 6): with one entry per
+	// block a single user key then spans up to five data blocks whose index separators are all
+	// that user key - the case in which positioning at an inclusive virtual bound has to step over
+	// several index entries.
+	Deep bool `json:"deep,omitempty"`
+}
+
+var deepVersions = []Ent{
+	{K: "c@5", Seq: 8, Kind: base.InternalKeyKindSet, V: "7"},
+	{K: "c@5", Seq: 7, Kind: base.InternalKeyKindDelete},
+	{K: "c@5", Seq: 6, Kind: base.InternalKeyKindSet, V: "8"},
 }
 
 func (ts TableSpec) ents() []Ent {
@@ -148,6 +159,9 @@ func (ts TableSpec) ents() []Ent {
 		if ts.Mask&(1<<uint(i)) != 0 {
 			out = append(out, e)
 		}
+	}
+	if ts.Deep {
+		out = append(out, deepVersions...)
 	}
 	sort.SliceStable(out, func(i, j int) bool {
 		if c := cmp([]byte(out[i].K), []byte(out[j].K)); c != 0 {
@@ -172,6 +186,9 @@ func (ts TableSpec) String() string {
 	}
 	if ts.NoValBlk {
 		s += " no-value-blocks"
+	}
+	if ts.Deep {
+		s += " deep"
 	}
 	return s + fmt.Sprintf(" %s %s}", ts.Format, layoutMenu[ts.Layout].Name)
 }
